@@ -266,3 +266,79 @@ def best_match(patterns, node):
         if best is None or order[r[0]] < order[best[0]]:
             best = r
     return best
+
+
+def expand_block_locals(stmts, keep=(), drop=False):
+    """Within one branch (a list of statements), a name that is bound exactly once there by a plain
+    `name = value` and is not otherwise stored in the branch is replaced by its value in the statements that
+    follow (the definition stays).  For classifying the expressions of a lowering branch whatever temporaries
+    it names; never used to produce code."""
+    import copy as _copy
+    mod = ast.Module(body=list(stmts), type_ignores=[])
+    stores = {}
+    for n in ast.walk(mod):
+        if isinstance(n, ast.Name) and isinstance(n.ctx, (ast.Store, ast.Del)):
+            stores[n.id] = stores.get(n.id, 0) + 1
+    defs = {}
+    for n in ast.walk(mod):
+        if isinstance(n, ast.Assign) and len(n.targets) == 1 and isinstance(n.targets[0], ast.Name):
+            k = n.targets[0].id
+            if stores.get(k) == 1 and k not in keep and not any(
+                    isinstance(x, ast.Name) and x.id == k for x in ast.walk(n.value)):
+                defs[k] = n.value
+    if not defs:
+        return list(stmts)
+
+    class _S(ast.NodeTransformer):
+        def visit_Name(self, node):
+            if isinstance(node.ctx, ast.Load) and node.id in defs:
+                return ast.copy_location(_S().visit(_copy.deepcopy(defs[node.id])), node)
+            return node
+
+        def visit_Assign(self, node):
+            if drop and len(node.targets) == 1 and isinstance(node.targets[0], ast.Name) and node.targets[0].id in defs:
+                return ast.copy_location(ast.Pass(), node)       # the temporary lives on in its readers
+            # keep the defining statement itself readable: only its value is expanded
+            node.value = self.visit(node.value)
+            node.targets = [t if isinstance(t, ast.Name) else self.visit(t) for t in node.targets]
+            return node
+    out = []
+    for st in stmts:
+        out.append(_S().visit(_copy.deepcopy(st)))
+    for st in out:
+        ast.fix_missing_locations(st)
+    return out
+
+
+def zip_elem_defs(fn_node):
+    """for u, w in zip(A, ws)  with  ws = [E(v) for v in A]  (a local bound once):  w is E(u).
+    -> {name: expression over the sibling loop variable}; used to read a loop variable that only carries a
+    per-element value computed in a parallel comprehension"""
+    import copy as _copy
+    defs = single_defs(fn_node)
+    out = {}
+    for n in walk_no_nested(fn_node):
+        if not (isinstance(n, ast.For) and isinstance(n.iter, ast.Call) and isinstance(n.iter.func, ast.Name) and
+                n.iter.func.id == 'zip' and isinstance(n.target, ast.Tuple) and
+                len(n.target.elts) == len(n.iter.args) and not n.iter.keywords):
+            continue
+        pairs = list(zip(n.target.elts, n.iter.args))
+        for t, a in pairs:
+            if not (isinstance(t, ast.Name) and isinstance(a, ast.Name) and a.id in defs):
+                continue
+            comp = defs[a.id]
+            if not (isinstance(comp, ast.ListComp) and len(comp.generators) == 1 and not comp.generators[0].ifs and
+                    isinstance(comp.generators[0].target, ast.Name)):
+                continue
+            src = ntext(comp.generators[0].iter)
+            for t2, a2 in pairs:
+                if t2 is not t and isinstance(t2, ast.Name) and ntext(a2) == src:
+                    v = comp.generators[0].target.id
+
+                    class _S(ast.NodeTransformer):
+                        def visit_Name(self, node):
+                            if node.id == v and isinstance(node.ctx, ast.Load):
+                                return ast.copy_location(ast.Name(id=t2.id, ctx=ast.Load()), node)
+                            return node
+                    out[t.id] = _S().visit(_copy.deepcopy(comp.elt))
+    return out
